@@ -92,6 +92,22 @@ fn async_lattice(tier: Tier, want_probe_only: bool) -> Vec<Cfg> {
             }
         }
     }
+    // oversampling factors that are not powers of two (even and odd; 160 is the documented
+    // example value), all interpolations that split a position into sub-filter and fraction
+    {
+        for (k, os) in [6usize, 12, 96, 160, 5, 100].into_iter().enumerate() {
+            if q && os == 100 {
+                continue;
+            }
+            for kind in [Kind::SI, Kind::SO] {
+                let interp = [Interp::Cubic, Interp::Linear, Interp::Quadratic][k % 3];
+                out.push(Cfg::sinc(kind, if k % 2 == 0 { 0.8 } else { 1.6 }, 2.0, 8, 8, os, interp, Kernel::Probe).with_channels(2));
+                if !want_probe_only && (os == 160 || os == 6) {
+                    out.push(Cfg::sinc(kind, 1.6, 2.0, 8, 8, os, Interp::Cubic, Kernel::Dispatch).with_channels(2));
+                }
+            }
+        }
+    }
     // filter lengths that are not a multiple of 8 (every remainder), through the constructors
     // that round them up and pick the kernel for the running CPU
     if !want_probe_only {
@@ -239,12 +255,25 @@ pub fn items(tier: Tier, id: &str) -> Vec<Item> {
             out.push(Item { cfgs: c.to_vec(), f32_too: false });
         }
     }
+    if id == "C09" {
+        // custom interpolators whose length is not a multiple of 8 (the built-in kernels round up,
+        // the resamplers must size their storage from the length they are given)
+        let mut cfgs = Vec::new();
+        for kind in [Kind::SI, Kind::SO] {
+            for (l, interp) in [(9usize, Interp::Cubic), (12, Interp::Quadratic), (15, Interp::Linear), (33, Interp::Nearest)] {
+                cfgs.push(Cfg::sinc(kind, 0.5, 2.0, 8, l, 2, interp, Kernel::Probe).with_channels(2));
+            }
+        }
+        for c in cfgs.chunks(4) {
+            out.push(Item { cfgs: c.to_vec(), f32_too: false });
+        }
+    }
     if id == "C10" || id == "C03" || id == "C06" || id == "C04" {
         // custom interpolators of odd length (new_with_interpolator accepts any length): every
         // place that halves the length has to agree on the rounding
         let mut cfgs = Vec::new();
         for kind in [Kind::SI, Kind::SO] {
-            for (l, interp) in [(9usize, Interp::Cubic), (15, Interp::Linear), (33, Interp::Nearest)] {
+            for (l, interp) in [(9usize, Interp::Cubic), (15, Interp::Linear), (33, Interp::Nearest), (12, Interp::Quadratic)] {
                 cfgs.push(Cfg::sinc(kind, 0.5, 2.0, 8, l, 2, interp, Kernel::Probe));
                 cfgs.push(Cfg::sinc(kind, 2.0, 2.0, 5, l, 4, interp, Kernel::Probe));
             }
@@ -1263,7 +1292,8 @@ impl Check for CtrlCheck {
         let on = |ids: &[&str]| ids.contains(&id);
         if on(&["C10", "C17"]) { subs.push("ratios one and two ulp next to 1, 0.5, 2, 0.25 (chunk/ratio within rounding distance of an integer)"); }
         if on(&["C13", "C11", "C03"]) { subs.push("three-channel configurations of all types"); }
-        if on(&["C10", "C03", "C06", "C04"]) { subs.push("odd-length custom interpolators (9, 15, 33 taps); probe-kernel chunks of 4096 frames"); }
+        if on(&["C10", "C03", "C06", "C04"]) { subs.push("custom interpolators of 9, 12, 15, 33 taps; probe-kernel chunks of 4096 frames"); }
+        if on(&["C09"]) { subs.push("custom interpolators of 9, 12, 15, 33 taps"); }
         if on(&["C03", "C04"]) { subs.push("FFT chunks above 2^24 frames; positions beyond 2^31 sub-filter steps (70 000-frame chunks x 32 768 sub-filters); (chunk, ratio, range) sweep 1..64 x 5 x {3,5}"); }
         if on(&["C09", "C13"]) { subs.push("24-channel configurations with fragmented masks"); }
         if on(&["C09"]) { subs.push("buffers of several hundred kilobytes; large audio configurations (both tiers)"); }
